@@ -275,6 +275,12 @@ var C03OpenFindings = []C03Finding{
 	{"C03-empty-list-literal", C03EmptyListLiteral},
 	{"C03-nested-aggregate", C03NestedAggregate},
 	{"C03-variable-rebound-with-other-role", C03VariableReboundWithOtherRole},
+	{"C03-path-used-as-entity", C03PathUsedAsEntity},
+	{"C03-string-predicate-on-id", C03StringPredicateOnID},
+	{"C03-property-of-scalar-alias", C03PropertyOfScalarAlias},
+	{"C03-alias-shadows-or-self-reference", C03AliasShadowsOrSelfReference},
+	{"C03-list-concatenation-cast-to-pseudo-type", C03ListConcatenationWithCollect},
+	{"C03-aggregate-in-where", C03AggregateInWhere},
 }
 
 // C03ExcludedBy returns the id of the first open finding whose shape the query has ("" = none).
@@ -1232,4 +1238,197 @@ func C03VariableReboundWithOtherRole(q *cypher.RegularQuery) bool {
 		}
 	}
 	return false
+}
+
+// C03PathUsedAsEntity: `match p = (a)-->(b) where p.name = 'x'` – a property of a path. openCypher rejects it
+// (a path has no properties); DAWGS accepts it and emits `(pc0).properties`, naming a FROM item `pc0` that does not
+// exist. Shape: a property lookup whose atom is a path variable.
+func C03PathUsedAsEntity(q *cypher.RegularQuery) bool {
+	paths := c03PathVariables(C03Clauses(q))
+	if len(paths) == 0 {
+		return false
+	}
+	isPath := func(e any) bool {
+		v, isVar := e.(*cypher.Variable)
+		return isVar && v != nil && paths[v.Symbol]
+	}
+	return c03Contains(q, func(n any) bool {
+		switch t := n.(type) {
+		case *cypher.PropertyLookup:
+			return t != nil && isPath(t.Atom)
+		case *cypher.FunctionInvocation:
+			if c03IsFunction(t, "id", "type", "labels", "startnode", "endnode") {
+				for _, a := range t.Arguments {
+					if isPath(a) {
+						return true
+					}
+				}
+			}
+		}
+		return false
+	})
+}
+
+// C03StringPredicateOnID: `id(n) ENDS WITH x` – the id is cast to text inside the call to cypher_ends_with / …,
+// and the reference inside the cast is not rewritten to the frame that materializes n (`(n0.id)::text` where only
+// `s0.n0` is in scope). Shape: STARTS WITH / ENDS WITH / CONTAINS with id(…) as an operand.
+func C03StringPredicateOnID(q *cypher.RegularQuery) bool {
+	return c03Contains(q, func(n any) bool {
+		cmp, ok := n.(*cypher.Comparison)
+		if !ok || cmp == nil {
+			return false
+		}
+		left := cmp.Left
+		for _, p := range cmp.Partials {
+			if p == nil {
+				continue
+			}
+			switch strings.ToLower(string(p.Operator)) {
+			case "starts with", "ends with", "contains":
+				if c03IsFunction(left, "id") || c03IsFunction(p.Right, "id") {
+					return true
+				}
+			}
+			left = p.Right
+		}
+		return false
+	})
+}
+
+// C03PropertyOfScalarAlias: `with 'a' as u … where u.name = …` – a property of a value that is not an entity.
+// DAWGS accepts it and emits `(s0.i0).properties` on a text / array column. Shape: a property lookup whose atom is
+// a variable that a WITH introduces as the alias of something other than a variable, or that an UNWIND introduces.
+func C03PropertyOfScalarAlias(q *cypher.RegularQuery) bool {
+	scalars := map[string]bool{}
+	C03WalkModel(q, func(n any, _ []any) bool {
+		switch t := n.(type) {
+		case *cypher.With:
+			if t.Projection != nil {
+				for _, it := range t.Projection.Items {
+					if pi, ok := it.(*cypher.ProjectionItem); ok && pi != nil && pi.Alias != nil {
+						if _, isVar := pi.Expression.(*cypher.Variable); !isVar {
+							scalars[pi.Alias.Symbol] = true
+						}
+					}
+				}
+			}
+		case *cypher.Unwind:
+			if t.Variable != nil {
+				if _, fromVariable := t.Expression.(*cypher.Variable); !fromVariable {
+					scalars[t.Variable.Symbol] = true
+				}
+			}
+		}
+		return true
+	})
+	if len(scalars) == 0 {
+		return false
+	}
+	return c03Contains(q, func(n any) bool {
+		pl, ok := n.(*cypher.PropertyLookup)
+		if !ok || pl == nil {
+			return false
+		}
+		v, isVar := pl.Atom.(*cypher.Variable)
+		return isVar && v != nil && scalars[v.Symbol]
+	})
+}
+
+// C03AliasShadowsOrSelfReference: `match (total) return count(*) as total order by total` – the alias has the name
+// of a bound variable and ORDER BY resolves it to the variable; `with sum(n.age) as t, count(t) as c` – an item reads
+// an alias of the same projection. openCypher rejects the second and gives the alias precedence in the first; DAWGS
+// emits a reference to a column that the select does not have. Shape: a projection alias that equals a pattern
+// variable of the query, or that another item of the same projection mentions.
+func C03AliasShadowsOrSelfReference(q *cypher.RegularQuery) bool {
+	cs := C03Clauses(q)
+	patternVars := map[string]bool{}
+	for _, c := range cs {
+		if c.Match != nil {
+			for v := range c03PatternVariables(c.Match.Pattern) {
+				patternVars[v] = true
+			}
+		}
+	}
+	found := false
+	C03WalkModel(q, func(n any, _ []any) bool {
+		p, ok := n.(*cypher.Projection)
+		if !ok || p == nil {
+			return true
+		}
+		aliases := map[string]int{}
+		for i, it := range p.Items {
+			if pi, isItem := it.(*cypher.ProjectionItem); isItem && pi != nil && pi.Alias != nil {
+				aliases[pi.Alias.Symbol] = i
+				if v, isVar := pi.Expression.(*cypher.Variable); patternVars[pi.Alias.Symbol] && !(isVar && v != nil && v.Symbol == pi.Alias.Symbol) {
+					found = true
+				}
+			}
+		}
+		for i, it := range p.Items {
+			if pi, isItem := it.(*cypher.ProjectionItem); isItem && pi != nil {
+				for v := range c03VariablesIn(pi.Expression) {
+					if j, isAlias := aliases[v]; isAlias && j != i && !patternVars[v] {
+						found = true
+					}
+				}
+			}
+		}
+		return true
+	})
+	return found
+}
+
+// C03ListConcatenationWithCollect: `n.name + collect(m.name)` – the scalar operand of a list concatenation is cast
+// to the pseudo type `any` (`(…)::any || …::anyarray`), which is not a type name PostgreSQL accepts in a cast.
+// Shape: an arithmetic expression with a collect() operand and an operand that is not a collect() / list literal.
+func C03ListConcatenationWithCollect(q *cypher.RegularQuery) bool {
+	return c03Contains(q, func(n any) bool {
+		ar, ok := n.(*cypher.ArithmeticExpression)
+		if !ok || ar == nil {
+			return false
+		}
+		operands := []cypher.Expression{ar.Left}
+		for _, p := range ar.Partials {
+			if p != nil {
+				operands = append(operands, p.Right)
+			}
+		}
+		strip := func(e cypher.Expression) cypher.Expression {
+			for {
+				p, isParen := e.(*cypher.Parenthetical)
+				if !isParen || p == nil {
+					return e
+				}
+				e = p.Expression
+			}
+		}
+		collects, others := 0, 0
+		for _, o := range operands {
+			o = strip(o)
+			if c03IsFunction(o, "collect") {
+				collects++
+			} else if _, isList := o.(*cypher.ListLiteral); !isList {
+				others++
+			}
+		}
+		return collects > 0 && others > 0
+	})
+}
+
+// C03AggregateInWhere: `match (n) where count(*) > 1 return n` – openCypher rejects an aggregate in WHERE; DAWGS
+// emits it and PostgreSQL rejects it ("aggregate functions are not allowed in WHERE"). Shape: an aggregate call
+// below a WHERE.
+func C03AggregateInWhere(q *cypher.RegularQuery) bool {
+	found := false
+	C03WalkModel(q, func(n any, anc []any) bool {
+		if c03IsAggregate(n) {
+			for _, a := range anc {
+				if _, isWhere := a.(*cypher.Where); isWhere {
+					found = true
+				}
+			}
+		}
+		return true
+	})
+	return found
 }
